@@ -71,6 +71,7 @@ type Config struct {
 	Threshold string    `json:"threshold,omitempty"` // failureThreshold
 	NoCanarySvc bool    `json:"noCanarySvc,omitempty"`
 	TRRef     bool      `json:"trRef,omitempty"` // use a TrafficRouting CR instead of inline trafficRoutings
+	Queue     bool      `json:"queue,omitempty"` // reconciles are enabled only when the controller's key is pending (real wake-ups)
 	Actions   []string  `json:"actions"`         // user / disturbance actions enabled (env + controllers are always on)
 	Budget    map[string]int `json:"budget,omitempty"` // per action-class budgets
 }
@@ -85,6 +86,8 @@ type World struct {
 	Tr     *trctrl.TrafficRoutingReconciler
 	WL     WorkloadEnv
 	Ghost  Ghost
+	Q      Queues
+	wake   *wakeHandlers
 }
 
 // Ghost is history the properties refer to but the cluster does not store.
@@ -192,6 +195,7 @@ func NewWorld(cfg Config) (*World, error) {
 	}
 	w.Ghost.Orig = w.userOwned()
 	w.Ghost.Created = true
+	w.Q = Queues{RoPending: true} // the Rollout was just created
 	w.S.BeginAction("")
 	return w, nil
 }
@@ -433,9 +437,24 @@ func (w *World) Do(action string, captureMids bool) (res Result) {
 	} else {
 		w.S.OnWrite = nil
 	}
+	var err error
+	var rr ctrl.Result
+	reconciled := ""
 	defer func() {
 		w.S.OnWrite = nil
-		if r := recover(); r != nil {
+		rec := recover()
+		// wake-up bookkeeping with the REAL event handlers
+		evs := w.S.Events
+		if _, crashed := rec.(CrashSentinel); crashed {
+			// a restarted process re-lists everything: every key is reconciled again, timers are gone
+			w.Q = Queues{RoPending: true, BrPending: true}
+		} else if reconciled != "" {
+			w.afterReconcile(reconciled, err, rr.Requeue, rr.RequeueAfter)
+			if rec != nil { // a real panic: controller-runtime recovers and requeues the key
+				w.afterReconcile(reconciled, fmt.Errorf("panic"), false, 0)
+			}
+		}
+		if r := rec; r != nil {
 			if _, ok := r.(CrashSentinel); ok {
 				res.Crashed = true
 				w.LoseMemory()
@@ -446,20 +465,26 @@ func (w *World) Do(action string, captureMids bool) (res Result) {
 		res.Writes = w.S.Log
 		res.Calls, res.WriteCalls, res.EffWrites = w.S.Calls(), w.S.WriteCalls(), w.S.EffWrites()
 		res.FaultFired = w.S.FaultFired
+		w.S.Fault = FaultPlan{} // the event handlers below read through the same store
+		w.deliverEvents(evs)
 		w.afterAction(base)
 	}()
-	var err error
-	var rr ctrl.Result
 	switch {
 	case base == "ro":
+		reconciled = "ro"
+		w.Q.RoPending = false
 		rr, err = w.Ro.Reconcile(context.TODO(), roReq())
 	case base == "br":
+		reconciled = "br"
+		w.Q.BrPending = false
 		rr, err = w.Br.Reconcile(context.TODO(), roReq())
 	case base == "tr":
 		rr, err = w.Tr.Reconcile(context.TODO(), ctrl.Request{NamespacedName: types.NamespacedName{Namespace: NS, Name: "tr-demo"}})
 	case base == "tick":
 		w.S.AgeTimestamps(TickAge)
 		grace.AgeForVerif(TickAge)
+		w.Q.RoPending, w.Q.BrPending = w.Q.RoPending || w.Q.RoTimer, w.Q.BrPending || w.Q.BrTimer
+		w.Q.RoTimer, w.Q.BrTimer = false, false
 	case base == "env.gc":
 		w.garbageCollect()
 	case strings.HasPrefix(base, "env."):
@@ -718,11 +743,11 @@ func (w *World) CurrentSteps() []v1beta1.CanaryStep {
 func (w *World) Enabled() []string {
 	var out []string
 	ro := w.getRollout()
-	if ro != nil {
+	if ro != nil && (!w.Cfg.Queue || w.Q.RoPending) {
 		out = append(out, "ro")
 	}
 	br := &v1beta1.BatchRelease{}
-	if w.S.Load(NS, RolloutName, br) {
+	if w.S.Load(NS, RolloutName, br) && (!w.Cfg.Queue || w.Q.BrPending) {
 		out = append(out, "br")
 	}
 	out = append(out, w.WL.EnvActions(w)...)
@@ -801,6 +826,9 @@ func (w *World) userEnabled(a string, ro *v1beta1.Rollout) bool {
 
 // tickUseful: time passing changes something only if some timestamp is still fresh.
 func (w *World) tickUseful() bool {
+	if w.Cfg.Queue && (w.Q.RoTimer || w.Q.BrTimer) {
+		return true
+	}
 	for _, m := range grace.DumpForVerif() {
 		for _, t := range m {
 			if time.Since(t) < time.Duration(BigGrace)*time.Second {
@@ -836,6 +864,7 @@ type WorldSnapshot struct {
 	Store *Snapshot
 	Mem   MemSnapshot
 	Ghost Ghost
+	Q     Queues
 }
 
 func (w *World) Snapshot() *WorldSnapshot {
@@ -845,7 +874,7 @@ func (w *World) Snapshot() *WorldSnapshot {
 		g.Used[k] = v
 	}
 	g.ReadySteps = append([]int{}, w.Ghost.ReadySteps...)
-	return &WorldSnapshot{Store: w.S.Snapshot(), Mem: MemSnapshot{Grace: grace.DumpForVerif(), Exp: dumpResourceExpectations()}, Ghost: g}
+	return &WorldSnapshot{Store: w.S.Snapshot(), Mem: MemSnapshot{Grace: grace.DumpForVerif(), Exp: dumpResourceExpectations()}, Ghost: g, Q: w.Q}
 }
 
 func (w *World) Restore(sn *WorldSnapshot) {
@@ -859,6 +888,7 @@ func (w *World) Restore(sn *WorldSnapshot) {
 	}
 	g.ReadySteps = append([]int{}, sn.Ghost.ReadySteps...)
 	w.Ghost = g
+	w.Q = sn.Q
 }
 
 var _ = v1alpha1.RolloutPhaseHealthy
